@@ -96,7 +96,8 @@ def run_sim(fams, seed, n, shards=8, flavour="full", scen_in=None):
             envf = parts[3].split() if len(parts) > 3 else []
             env_first = int(envf[0]) if envf else None
             envt_first = int(envf[1]) if len(envf) > 1 else None
-            results.append({"env_first": env_first, "envt_first": envt_first, "index": idx, "name": hdr[2], "family": hdr[2].split("-")[0], "n_events": int(hdr[3]), "verdict": hdr[4],
+            envc_first = int(envf[2]) if len(envf) > 2 else None
+            results.append({"env_first": env_first, "envt_first": envt_first, "envc_first": envc_first, "index": idx, "name": hdr[2], "family": hdr[2].split("-")[0], "n_events": int(hdr[3]), "verdict": hdr[4],
                             "alarms": alarms, "guards": guards, "shard": so, "stderr": crashed.get(idx, "")})
     return results, shard_out
 
